@@ -168,6 +168,10 @@ class ModelMixin3:
             if name == 'append' and args and not getattr(self, '_internal_append', False):
                 la[recv.sym] = args[0]          # xs[-1] right after xs.append(v) is v
             st.mon['lastapp'] = la
+        if name in ('append', 'extend', 'insert') and not getattr(self, '_internal_append', False):
+            self.lapp_note(st, recv.sym)
+            if name != 'append':
+                self.lapp_note(st, recv.sym)     # anything but a single append breaks the one-per-iteration pattern
         if name == 'append':
             v = args[0] if args else NoneV()
             if not getattr(self, '_internal_append', False):
